@@ -68,7 +68,11 @@ def one(args):
     seed, idx = args
     rng = random.Random(seed * 32452843 + idx)
     mode = rng.choice(list(MODES))
+    uf_family = idx >= 1000000        # directed family: pure QF_UF (UFTheory's own preprocessing: learnt transitivity, distinct), dense in special shapes
+    if uf_family:
+        mode = rng.choice([m for m in MODES if not m.startswith("per-partition")])
     text, meta = scriptgen.gen_script(rng, incremental=rng.random() < 0.35, queries=(), produce_models=False, options=MODES[mode],
+                                      logic="QF_UF" if uf_family else None, p_special=0.6 if uf_family else 0.3,
                                       logics=["QF_UF", "QF_LRA", "QF_LIA", "QF_LIA", "QF_UFLRA", "QF_UFLIA", "QF_UFLIA", "QF_IDL", "QF_RDL", "QF_BOOL"], named=mode.startswith("per-partition") and rng.random() < 0.5)
     tr = os.path.join(vlib.BUILD, "tmp", "c13_%d_%d.trace" % (os.getpid(), idx))
     os.makedirs(os.path.dirname(tr), exist_ok=True)
@@ -174,7 +178,7 @@ def one(args):
 def run(ctx):
     n = 90 if ctx.quick else 2000
     with cf.ThreadPoolExecutor(max_workers=12) as ex:
-        results = list(ex.map(one, [(ctx.seed, i) for i in range(n)]))
+        results = list(ex.map(one, [(ctx.seed, i) for i in range(n)] + [(ctx.seed, 1000000 + i) for i in range(n // 2)]))
     for text, meta, mode, rc, evs, findings, cases in results:
         if evs is None:
             ctx.tie_broken("pp-trace", "unparsable ins/pp/ms event", dict(script=text))
